@@ -3,4 +3,5 @@ CONSTANTS
   Mode = "queries"
   MaxLen = 0
   NTexts = 3
+  NestedDepths = {10, 100, 500}
 CHECK_DEADLOCK FALSE
